@@ -322,7 +322,8 @@ pub fn inject(p: &mut ProgramIr, t: &mut Tape, kind_idx: usize) -> Option<Fault>
       let n = 2 + t.choose(3);
       let iface = p.modules.iter_mut().flat_map(|m| m.classes.iter_mut()).find(|c| c.is_interface && c.name == "Cmp")?;
       for i in 0..n {
-        let is_method = t.bool(2, 3);
+        // interfaces declare methods only
+        let is_method = true;
         iface.members.push(Member { name: format!("{}{i}", ["extra", "more", "also", "other", "aMemberWithAVeryLongName", "yetAnotherRatherLongName"][t.choose(6)]), is_method, is_public: true, tparams: vec![], params: vec![], ret: Ty::Int, body: None });
       }
       return Some(Fault { kind, site: format!("{}+{n}", implementer.1), module: implementer.0 });
